@@ -108,6 +108,8 @@ def main():
                 f.write(f"| {sid} | {v['property']} | {v['summary']} | (not run: {v['error']}) | |\n")
                 continue
             marks = v["caught_by"] + [c + "?" for c in v["inconclusive"]]
+            if v.get("checks_run") and len(v["checks_run"]) < len(ALL):
+                marks.append("(only " + ", ".join(v["checks_run"]) + " were run, on a scratch copy)")
             f.write(f"| {sid} | {v['property']} | {(v['summary'] + ' Needs: ' + v['needs']).replace('|', '/')} | "
                     f"{', '.join(marks) if v['caught_by'] else '**missed** ' + ', '.join(marks)} | "
                     f"{v['first_report'].replace('|', '/')} |\n")
